@@ -433,6 +433,13 @@ let exec (op : string) : unit =
                     (String.concat " " (List.sort compare (List.map (fun (m, _) -> mv_text m) vs)))
               | _ -> "PANIC"
             end)
+    | "perft2" :: d :: _ ->
+        with_board (fun b ->
+            let d = int_of_string d in
+            let p = abstract b in
+            let total = ref 0 in
+            for k = 1 to d + 1 do total := !total + int_of_n (perft (nat_of_int k) p) done;
+            Printf.sprintf "perft2 %d %d %d" d !total !total)
     | "perft" :: d :: _ ->
         with_board (fun b ->
             let d = int_of_string d in
